@@ -66,6 +66,10 @@ type vBoltModel struct {
 
 var vBolt *vBoltModel
 
+func vNewPremiumStoreModel(db *bolt.DB) (*premium.BBoltPremiumStore, error) {
+	return &premium.BBoltPremiumStore{}, nil
+}
+
 func vDBUpdate(db *bolt.DB, fn func(*bolt.Tx) error) error {
 	present, vals := vBolt.present, vBolt.vals
 	err := fn(&bolt.Tx{})
@@ -297,7 +301,12 @@ func vPremiumSetting() (*vRates, *premium.Setting) {
 	vCurRates = r
 	if zzverif.Symbolic() {
 		zzverif.Override("(*github.com/elementsproject/peerswap/premium.BBoltPremiumStore).GetRate", vPremiumGetRate)
-		return r, &premium.Setting{}
+		zzverif.Override("github.com/elementsproject/peerswap/premium.NewBBoltPremiumStore", vNewPremiumStoreModel)
+		ps, perr := premium.NewSetting(nil)
+		if perr != nil {
+			zzverif.Fail("premium.NewSetting failed over the store model")
+		}
+		return r, ps
 	}
 	dir, err := os.MkdirTemp("", "zzverif-premium-")
 	if err != nil {
